@@ -24,6 +24,31 @@ CLAIMED = {
           "Tuple index arrays not exercised."),
     technique="TLA+ model (TLC exhaustive) + spec-generated behaviours replayed on the implementation",
     design_ref="DESIGN.md 4.5, 5 (C18)", engine="cadence"),
+ "C10": dict(
+    text=("Stream.tla models DataStream clocks, Antenna and MultiAntennaArray with every sample identified by its "
+          "integer tick and every noise value by its draw index; TLC checks Continuity / ClockExact / "
+          "AntennaClockEqualsStreams / NoiseInOrder exhaustively over all request partitions interleaved with "
+          "set_time/add_time/reset_start/update_noise. Every generated behaviour is replayed on real objects in "
+          "identity, seeded-noise and chirp instantiations (dyadic, 187.5 MHz and 3 GHz rates, both orientations, "
+          "real and complex custom sources) and the decoded sample identities, evaluation times, noise values, "
+          "clocks and flags are compared with TLC's post-state after every call."),
+    note=("Trusted: TLC, identity decoding (custom sources returning round(t*rate)), reference noise from a copy of "
+          "each stream's generator, chirp closed form at atol 1e-7*level (numeric projection outside TLC). One "
+          "noise source per stream. Bounded: requests <= 4-6 samples, <= 3 antennas, sequences exhaustive to "
+          "depth 2 (quick) / 3 and random to depth 7-10."),
+    technique="TLA+ model (TLC exhaustive) + spec-generated behaviours replayed on the implementation",
+    design_ref="DESIGN.md 4.7, 5 (C10)", engine="stream"),
+ "C15": dict(
+    text=("Stream.tla's GetArray action transcribes MultiAntennaArray.get_samples (background request of n+maxDelay "
+          "on the first call, per-antenna slice, carried-over cache); TLC checks DelayAlignment (bg id = own id + "
+          "maxDelay - delay), CacheIsUnusedTail, CacheClearedAtStart, BgConsecutive for all delay vectors over 0..2 "
+          "(unsorted, repeated, all-zero, omitted) and request partitions. Replay on real arrays decodes own and "
+          "background sample identities from identity-carrying sources and compares them, the cache lengths, "
+          "clocks and flags with TLC's post-state after every call; seeded noise is compared value for value."),
+    note=("Trusted: TLC, identity decoding, reference noise draws. Bounded: <= 3 antennas, delays <= 2, requests <= 6, "
+          "depth as C10. Requests must exceed the maximum delay (library precondition)."),
+    technique="TLA+ model (TLC exhaustive) + spec-generated behaviours replayed on the implementation",
+    design_ref="DESIGN.md 4.7, 5 (C15)", engine="stream"),
 }
 
 NOT_YET = "check not built yet in this round (planned, see DESIGN.md 5); no claim is made"
